@@ -182,7 +182,9 @@ class Contract:
     def __init__(self, func, requires=(), ensures=(), loops=None, float_mode="R", bind=None,
                  ghost=None, lemmas=(), modifies=None, defs=(), name=None, checks=("bounds", "overflow", "narrow", "divzero", "frame"),
                  assume_types=True, note="", nan_aware=False, asserts=None, py_mode=False, inputs=None,
-                 call_facts=None, count_calls=(), rtc_prefs=(), rtc_scope=0, lists=()):
+                 call_facts=None, count_calls=(), rtc_prefs=(), rtc_scope=0, lists=(), vectors=False):
+        self.vectors = vectors      # py_mode: 1-d NumPy vector semantics of pvc/npvec.py
+        self.timeout_ms = 3000 if vectors else None   # formula contracts: syntactic proofs take ms; go to the finite scope early
         self.lists = tuple(lists)   # parameters that are Python lists of int lists (modelled by multiplicity tables)
         self.rtc_prefs, self.rtc_scope = list(rtc_prefs), rtc_scope   # run-time contract check: soft input preferences
         self.count_calls = tuple(count_calls)   # ghost counters: number of executed calls of these functions
@@ -621,6 +623,11 @@ class Exec:
 
     def ev_IfExp(self, n):
         c = self.to_bool(self.ev(n.test))
+        sc = z3.simplify(c)
+        if z3.is_true(sc):
+            return self.ev(n.body)
+        if z3.is_false(sc):
+            return self.ev(n.orelse)
         g = self.guard
         self.guard = z3.And(g, c)
         a = self.ev(n.body)
@@ -2515,6 +2522,9 @@ def _expand(e, dom, cache):
         return cache[key]
     # AST ids are recycled once a term is freed: keep every key term alive for the lifetime of the cache
     cache.setdefault("__keep__", []).append(e)
+    if z3.is_quantifier(e) and e.is_lambda():
+        cache[key] = e          # lambdas are values; the sums over them are expanded at the FSUM application
+        return e
     if z3.is_quantifier(e):
         nv = e.num_vars()
         body = e.body()
@@ -2543,6 +2553,15 @@ def _expand(e, dom, cache):
         cache[key] = r
         return r
     if z3.is_app(e) and e.num_args() > 0:
+        if e.decl().name() in ("FSUM_I", "FSUM_R"):
+            # definition of the indexed sum within the scope: sum over q < n of f[q] (beta-reduced, then expanded further)
+            zero = z3.IntVal(0) if e.decl().name() == "FSUM_I" else z3.RealVal(0)
+            nn = _expand(e.arg(1), dom, cache)
+            terms = [z3.If(q < nn, _expand(z3.simplify(z3.Select(e.arg(0), z3.IntVal(q))), dom, cache), zero)
+                     for q in range(0, max(dom) + 1)]
+            r = z3.Sum(*terms)
+            cache[key] = r
+            return r
         args = [_expand(a, dom, cache) for a in e.children()]
         if e.decl().name() == "rsum":
             r = z3.Sum(*[z3.If(z3.And(q >= 0, q < args[1]), z3.Select(args[0], q), 0) for q in range(0, max(dom) + 1)])
